@@ -130,6 +130,19 @@ def d39_class(cmd, rec, prev, real, dirs, ref_before):
     return out == rec["out"] and common.jdump(listing) == common.jdump(real)
 
 
+def d44_class(cmd, rec, prev, real, dirs, ref_before):
+    """class predicate of D44: undeclare / remove while the environment says a version of the product is set up for a
+    flavor that an instance of the command's flavor does not look at (Linux, for a generic process): the implementation
+    refuses when its in-memory stack happens to hold that flavor (a stack rebuilt from the database holds every flavor,
+    one read from an accepted cache only the needed ones): the reference, told that the instance knows the set-up
+    flavor, implies exactly what the implementation did (and the plain reference does not)"""
+    su = cmd.get("setup")
+    if cmd["op"] not in ("undeclare", "remove") or not su or su[1] in fallbacks(cmd.get("flavor", "Linux")):
+        return False
+    out, listing = _ref_with("foreign_setup_flavor_known", cmd, prev, dirs, ref_before)
+    return out == rec["out"] and common.jdump(listing) == common.jdump(real)
+
+
 def d32_class(cmd, rec, want, real):
     """class predicate of D32: a direct Eups.assignTag succeeded and the only difference from what the history
     implies is that the tag is still assigned to the product and flavor in other stacks"""
@@ -231,6 +244,8 @@ def check_case(ctx, case, steps, msteps):
                 cls = "D39"
             elif d38_class(cmd, rec, prev, real, dirs, ref_before):
                 cls = "D38"
+            elif d44_class(cmd, rec, prev, real, dirs, ref_before):
+                cls = "D44"
             dd = sorted(set(map(common.jdump, want["decls"])) ^ set(map(common.jdump, real["decls"])))
             td = sorted(set(map(common.jdump, want["tags"])) ^ set(map(common.jdump, real["tags"])))
             ctx.fail("history_implies/" + kind_of(cmd), sub, impl_obs, model_obs, finding=cls,
